@@ -308,6 +308,22 @@ type PObserver interface {
 // sentinel content the harness puts into blocks before Parse
 var sentinelSeq = lz.Seq{LitLen: 0xdead, MatchLen: 0xbeef, Offset: 0xfeed, Aux: 0x5e}
 
+// poisonBlock fills the whole capacity of the block's slices with sentinel
+// content and leaves one sentinel element in each: Parse must overwrite or
+// empty the block, and reused elements must not keep old field values.
+func poisonBlock(blk *lz.Block) {
+	s := blk.Sequences[:cap(blk.Sequences)]
+	for i := range s {
+		s[i] = sentinelSeq
+	}
+	blk.Sequences = append(s[:0], sentinelSeq)
+	l := blk.Literals[:cap(blk.Literals)]
+	for i := range l {
+		l[i] = 0xAA
+	}
+	blk.Literals = append(l[:0], 0xAA, 0x55)
+}
+
 // pbParser drives a bare lz.ParserBuffer through the Parser interface: Parse
 // only advances the parse position and emits the bytes as literals.
 type pbParser struct{ lz.ParserBuffer }
@@ -362,7 +378,7 @@ func NewParserFor(c gen.Cfg) (*PState, error) {
 	}
 	e := pc.Clone()
 	e.SetDefaults()
-	st := &PState{P: p, Cfg: c, Eff: gen.FromLz(e)}
+	st := &PState{P: p, Cfg: c, Eff: gen.FromLz(e), Poison: 0x5a}
 	bc := p.BufferConfig()
 	st.BufferSize, st.ShrinkSize, st.WindowSize, st.BlockSize = bc.BufferSize, bc.ShrinkSize, bc.WindowSize, bc.BlockSize
 	// explicit fields are authoritative for the model
@@ -494,8 +510,7 @@ func RunHistory(st *PState, pc *PCase, obs PObserver) (class, msg string, at int
 				})
 			} else {
 				// sentinel content must be overwritten or emptied
-				blk.Sequences = append(blk.Sequences[:0], sentinelSeq)
-				blk.Literals = append(blk.Literals[:0], 0xAA, 0x55)
+				poisonBlock(blk)
 				ev.Blk = blk
 				ev.Panic = call(func() {
 					n, err := p.Parse(blk, ev.Flags)
@@ -526,8 +541,7 @@ func RunHistory(st *PState, pc *PCase, obs PObserver) (class, msg string, at int
 			ev.Reader = rd
 			var b *lz.Block
 			if !ev.Nil {
-				blk.Sequences = append(blk.Sequences[:0], sentinelSeq)
-				blk.Literals = append(blk.Literals[:0], 0xAA, 0x55)
+				poisonBlock(blk)
 				b = blk
 				ev.Blk = blk
 			}
